@@ -213,6 +213,14 @@ class Proj:
         for p in (self.work, self.deep, self.elsewhere, os.path.dirname(self.bin), self.cache, self.pay):
             os.makedirs(p, exist_ok=True)
         self.npay = 0
+        # go wrappers reachable by a relative path from wherever mage is started, and through a directory with a space
+        self.gow = os.path.join(self.d, "tools", "gow")
+        self.gospace = os.path.join(side, "go dir", "gow")
+        for w in (self.gow, self.gospace):
+            os.makedirs(os.path.dirname(w), exist_ok=True)
+            with open(w, "w") as f:
+                f.write(GOWRAP_SH)
+            os.chmod(w, 0o755)
         # symbolic links, so that the lexical shortening of a path (filepath.Clean) and what chdir(2) does differ:
         #   <project>/link -> <side>/area/deep   (link/.. is <side>/area, not the project)
         #   <parent>/lnk_<project> -> <project>
@@ -291,7 +299,11 @@ def base_env(m, proj, gocache):
     return out
 
 
-def run_proc(argv, cwd, env, stdin=b"", combined=False, timeout=240, sinkfile=None):
+def run_proc(argv, cwd, env, stdin=b"", combined=False, timeout=240, sinkfile=None, stdin_kind="pipe", scratch=None):
+    """stdin_kind: what kind of file the process finds as its stdin - "pipe" (the payload through a pipe), "file" (a
+    regular file holding it), "socket" (one end of a unix socketpair, the payload written to the other end, then
+    shut down: what `ssh host cmd < data` without a pty or a socket-activated service gives), "devnull"."""
+    import socket, threading
     if sinkfile:
         # ONE open file passed as the process's stdout AND stderr (as `>log 2>&1` does)
         try:
@@ -300,12 +312,53 @@ def run_proc(argv, cwd, env, stdin=b"", combined=False, timeout=240, sinkfile=No
             return {"rc": p.returncode, "out_b": open(sinkfile, "rb").read(), "err_b": b""}
         except subprocess.TimeoutExpired:
             return {"rc": 124, "out_b": open(sinkfile, "rb").read(), "err_b": b"[timeout]"}
+    errdst = subprocess.STDOUT if combined else subprocess.PIPE
+    closers, writer, inp, sin = [], None, None, None
     try:
-        p = subprocess.run(argv, cwd=cwd, env=env, input=stdin, timeout=timeout, stdout=subprocess.PIPE,
-                           stderr=subprocess.STDOUT if combined else subprocess.PIPE)
-        return {"rc": p.returncode, "out_b": p.stdout, "err_b": p.stderr or b""}
-    except subprocess.TimeoutExpired as ex:
-        return {"rc": 124, "out_b": ex.stdout or b"", "err_b": (ex.stderr or b"") + b"\n[timeout]"}
+        if stdin_kind == "pipe":
+            sin, inp = subprocess.PIPE, stdin
+        elif stdin_kind == "devnull":
+            sin = subprocess.DEVNULL
+        elif stdin_kind == "file":
+            path = os.path.join(scratch, "stdin_%d_%d" % (os.getpid(), threading.get_ident()))
+            with open(path, "wb") as f:
+                f.write(stdin)
+            sin = open(path, "rb")
+            closers.append(sin)
+        elif stdin_kind == "socket":
+            ours, theirs = socket.socketpair()
+            sin = theirs
+            closers.append(theirs)
+
+            def feed():
+                try:
+                    ours.sendall(stdin)
+                    ours.shutdown(socket.SHUT_WR)
+                except OSError:
+                    pass
+            writer = threading.Thread(target=feed)
+        else:
+            raise ValueError(stdin_kind)
+        p = subprocess.Popen(argv, cwd=cwd, env=env, stdin=sin, stdout=subprocess.PIPE, stderr=errdst)
+        for c in closers:
+            c.close()
+        closers = []
+        if writer:
+            writer.start()
+        try:
+            out, err = p.communicate(input=inp, timeout=timeout)
+            rc = p.returncode
+        except subprocess.TimeoutExpired:
+            p.kill()
+            out, err = p.communicate()
+            rc, err = 124, (err or b"") + b"\n[timeout]"
+        if writer:
+            writer.join(10)
+            ours.close()
+        return {"rc": rc, "out_b": out or b"", "err_b": err or b""}
+    finally:
+        for c in closers:
+            c.close()
 
 
 # ---------------------------------------------------------------- configurations
@@ -329,7 +382,7 @@ def payload(rng, kind):
 
 def gen_cfg(rng, klass, layout, gowrap, quick):
     c = {"klass": klass, "layout": layout, "v": None, "debug": None, "l": None, "h": None, "t": None, "gocmd": None,
-         "env": [], "dv": "none", "wv": "none", "stdin": "empty", "word": "probe", "off": None, "dd": False, "B": [], "twords": None}
+         "env": [], "dv": "none", "wv": "none", "stdin": "empty", "word": "probe", "off": None, "dd": False, "B": [], "twords": None, "stdin_kind": "pipe"}
     env = {}
     if klass == "slowbuild":
         # -t to mage with a build phase made slow (the go command sleeps before `go build`), a target that works well
@@ -375,8 +428,11 @@ def gen_cfg(rng, klass, layout, gowrap, quick):
         env[b"MAGEFILE_DEBUG"] = ed
     # go command: flag {absent, the default "go", a custom command} x variable {unset, "go", custom, "", garbage}
     # (a garbage variable only together with a flag: without one mage would have to build with it)
-    gflag = rng.choice([None, None, None, "go", "go", gowrap, gowrap])
-    gvars = [None, None, b"go", gowrap.encode(), gowrap.encode(), b""]
+    # spellings of a custom command: absolute path, a path RELATIVE to the directory mage is started in (with a
+    # separator), an absolute path through a directory with a space, a bare name found on PATH
+    custom = rng.choice([gowrap, gowrap, "@GOREL@", "@GOREL@", "@GOSPACE@", "gobare"])
+    gflag = rng.choice([None, None, None, "go", "go", custom, custom])
+    gvars = [None, None, b"go", custom.encode(), gowrap.encode(), b""]
     if gflag is not None:
         gvars += [b"/nonexistent/go-from-the-variable", gowrap.encode()]
     gvar = rng.choice(gvars)
@@ -443,6 +499,7 @@ def gen_cfg(rng, klass, layout, gowrap, quick):
     else:
         c["stdin"] = rng.choice(["empty", "empty", "text", "binary", "nl"] + ([] if quick and rng.random() < 0.8 else ["big"]))
         c["seed"] = rng.getrandbits(32)
+
         gen_tail(rng, c, env, klass)
         if klass == "default":
             # no target word: the default target runs (and must read the caller's stdin like a named one)
@@ -456,6 +513,9 @@ def gen_cfg(rng, klass, layout, gowrap, quick):
                     c["v"] = rng.choice(BOOL_FLAG[True])
             for k in (b"MAGEFILE_LIST", b"MAGEFILE_HELP"):
                 env.pop(k, None)
+    if c["word"] != "echo":
+        # the kind of file mage finds as its stdin
+        c["stdin_kind"] = rng.choice(["pipe", "pipe", "file", "socket", "socket"]) if c["stdin"] != "empty" else rng.choice(["pipe", "devnull", "file", "socket"])
     c["env"] = [[hx(k), hx(v)] for k, v in env.items()]
     return c
 
@@ -597,6 +657,8 @@ def observe(r, stdin_sent):
     return o
 
 
+GOWRAP_SH = "#!/bin/sh\n[ -n \"$VERIF_GOLOG\" ] && echo \"$1\" >> \"$VERIF_GOLOG\"\nexec go \"$@\"\n"
+PATHBIN = [None]    # a directory put on PATH that holds the go wrapper `gobare`
 GOSLOW = [None]     # path of a go command that delays `go build` by $VERIF_GO_DELAY seconds
 GOWRAP = [None]     # path of the alternative go command of this run (a configuration names it symbolically)
 
@@ -622,6 +684,26 @@ def run_cfg(cfg, proj, m, conv, gocache, rng_payload):
     own = cfg_env(cfg)
     cwd, dstr = proj.start(cfg["dv"])
     wstr = proj.wstr(cfg["wv"], cwd)
+    gorel = os.path.relpath(proj.gow, cwd)
+    if not gorel.startswith("."):
+        gorel = "./" + gorel
+    if proj.layout == "mfdir" or cfg["dv"] not in ("none", "dot", "workup"):
+        # `go build` is run with cmd.Dir = the magefile directory, and os/exec evaluates a relative command path
+        # relative to cmd.Dir: on the unchanged tree a relative -gocmd only builds when that directory is the start
+        # directory (see the notes); elsewhere the absolute spelling of the same wrapper is used
+        gorel = proj.gow
+    subst = {"@GOREL@": gorel, "@GOSPACE@": proj.gospace}
+    if cfg["gocmd"]:
+        for k, v in subst.items():
+            cfg["gocmd"] = cfg["gocmd"].replace(k, v)
+    for k, v in subst.items():
+        own = {kk: vv.replace(k.encode(), v.encode()) for kk, vv in own.items()}
+    if cfg["gocmd"] == "gobare" or own.get(b"MAGEFILE_GOCMD") == b"gobare":
+        own[b"PATH"] = PATHBIN[0].encode() + b":" + base[b"PATH"]
+    proj.npay += 1
+    golog = os.path.join(proj.pay, "golog%d" % proj.npay)
+    if cfg["word"] != "echo":
+        own[b"VERIF_GOLOG"] = golog.encode()
     args = []
     if dstr is not None:
         args += ["-d", dstr]
@@ -666,7 +748,7 @@ def run_cfg(cfg, proj, m, conv, gocache, rng_payload):
     stdin = payload(prng, cfg["stdin"])
     env_m = dict(base)
     env_m.update(own)
-    r = run_proc([m.bin] + args + lh + tail_m, cwd, env_m, stdin=stdin)
+    r = run_proc([m.bin] + args + lh + tail_m, cwd, env_m, stdin=stdin, stdin_kind=cfg.get("stdin_kind", "pipe"), scratch=proj.pay)
     tns = conv["dur"].get(cfg["t"]) if cfg["t"] is not None else None
     # the compiled program's own flags: on one command line the later flag wins
     bv = [it[0] != "v0" for it in B if it[0] in ("v", "v0", "vT")]
@@ -693,7 +775,7 @@ def run_cfg(cfg, proj, m, conv, gocache, rng_payload):
         bargs += ["-t", cfg["t"]]
     env_b = dict(base)
     env_b.update(own_b)
-    r = run_proc([proj.bin] + bargs + lh + tail_b, expect_cwd, env_b, stdin=stdin)
+    r = run_proc([proj.bin] + bargs + lh + tail_b, expect_cwd, env_b, stdin=stdin, stdin_kind=cfg.get("stdin_kind", "pipe"), scratch=proj.pay)
     runs.append({"route": "bin-flags", "layout": proj.layout, "given": g_b, "argv": bargs + lh + tail_b, "env": env_b, "own": own_b, "cwd": expect_cwd, "obs": observe(r, stdin), "raw": r})
     # the compiled binary, the options as MAGEFILE_* variables
     own_v = dict(own_b)
@@ -707,11 +789,12 @@ def run_cfg(cfg, proj, m, conv, gocache, rng_payload):
         own_v[b"MAGEFILE_TIMEOUT"] = conv["durstr"][conv["dur"][cfg["t"]]].encode()
     env_v = dict(base)
     env_v.update(own_v)
-    r = run_proc([proj.bin] + tail_b, expect_cwd, env_v, stdin=stdin)
+    r = run_proc([proj.bin] + tail_b, expect_cwd, env_v, stdin=stdin, stdin_kind=cfg.get("stdin_kind", "pipe"), scratch=proj.pay)
     runs.append({"route": "bin-vars", "layout": proj.layout, "given": g_v, "argv": tail_b, "env": env_v, "own": own_v, "cwd": expect_cwd, "obs": observe(r, stdin), "raw": r})
     # a "--" standing where the compiled program still expects flags ends ITS flags and is consumed
     acted = words[1:] if (words and words[0] == "--") else words
     return {"runs": runs, "expect_cwd": expect_cwd, "stdin": stdin, "base": base, "words": acted,
+            "golog": open(golog, "rb").read() if os.path.exists(golog) else None,
             "expect_rejected": any(it[0] in B_BAD for it in B), "expect_usage": any(it[0] == "help" for it in B)}
 
 
@@ -856,6 +939,12 @@ def oracle(cfg, proj, res, conv):
                 bad.append(("cwd", tag + "target ran in %s, -w/-d say %s" % (o["cwd"], res["expect_cwd"])))
             if r["raw"]["out_b"].count(b"\n") != 1 or not r["raw"]["out_b"].startswith(b"PROBE "):
                 bad.append(("stdout-bytes", tag + "stdout carries more than the target's line: %r" % r["raw"]["out_b"][:200]))
+    # the go command given (flag, else variable) is the one the magefile is built with: every wrapper logs its calls
+    mr = runs["mage"]
+    eg = mr["given"]["gocmd"].encode() if mr["given"]["gocmd"] else (mr["env"].get(b"MAGEFILE_GOCMD") or b"go")
+    if eg != b"go" and mr["obs"]["mode"] in ("run", "list", "help") and mr["obs"]["rc"] == 0 and not var_true(mr["env"], b"MAGEFILE_HASHFAST"):
+        if not res.get("golog") or b"build" not in res["golog"]:
+            bad.append(("gocmd-build", "[mage %s] the go command %r was given, but its log shows no `build` call: %r" % (" ".join(mr["argv"]), eg, res.get("golog"))))
     # the same effect through both routes
     mo = runs["mage"]["obs"]
     for route in ("bin-flags", "bin-vars"):
@@ -1117,12 +1206,17 @@ def run(ctx):
     m = projlib.Mage(ctx)
     gowrap = os.path.join(os.path.realpath(ctx.tmp), "gowrap")
     with open(gowrap, "w") as f:
-        f.write("#!/bin/sh\nexec go \"$@\"\n")
+        f.write(GOWRAP_SH)
     os.chmod(gowrap, 0o755)
+    PATHBIN[0] = os.path.join(os.path.realpath(ctx.tmp), "pathbin")
+    os.makedirs(PATHBIN[0])
+    with open(os.path.join(PATHBIN[0], "gobare"), "w") as f:
+        f.write(GOWRAP_SH)
+    os.chmod(os.path.join(PATHBIN[0], "gobare"), 0o755)
     GOWRAP[0] = gowrap
     GOSLOW[0] = os.path.join(os.path.realpath(ctx.tmp), "goslow")
     with open(GOSLOW[0], "w") as f:
-        f.write("#!/bin/sh\ncase \"$1\" in build) sleep \"${VERIF_GO_DELAY:-0}\";; esac\nexec go \"$@\"\n")
+        f.write(GOWRAP_SH.replace("exec go", "case \"$1\" in build) sleep \"${VERIF_GO_DELAY:-0}\";; esac\nexec go"))
     os.chmod(GOSLOW[0], 0o755)
     HOST[0], HOST[1] = sh(["go", "env", "GOHOSTOS", "GOHOSTARCH"], env=goenv(), check=True)[1].split()
     gowrap = "@GOWRAP@"
